@@ -35,7 +35,7 @@ pub fn run(ctx: &Ctx) -> Outcome {
         let par = par_of(cfg);
         // all-sizes sweep configurations (thorough): every block size 1..=255 with reduced bounds
         let sweep = cfg.sets.contains('s');
-        let nmax = if sweep { 5 } else { tier.pick(2 * par + 2, 3 * par + 3) };
+        let nmax = if sweep { 5 } else { tier.pick((2 * par + 2).max(10), (3 * par + 3).max(18)) };
         let keys = keys(seed, cfg.key_len);
         for key in keys.iter().take(if sweep { 1 } else { tier.pick(1, 2) }) {
             for (ivn, iv) in iv_variants(seed, d.iv_len).into_iter().skip(if sweep { 2 } else { 0 }) {
